@@ -1,6 +1,7 @@
 import PybtexModel.Drv.Json
 import PybtexModel.Drv.C20
 import PybtexModel.Model.Errors
+import PybtexModel.Model.ErrorsBytes
 import PybtexModel.Model.ErrorSources
 import PybtexModel.Spec.Reporting
 open Lean
@@ -105,11 +106,96 @@ def shapeJ (e : Err) (pre : Str) : Json :=
           | some f => !f.isEmpty
           | none => false))]
 
+/-- a byte string on the wire: array of numbers below 256 -/
+def getBytes (j : Json) (k : String) : Except String Bytes := do
+  (← getArr j k).mapM fun x => do
+    let n ← x.getNat?
+    if n < 256 then pure n else throw "byte expected"
+
+/-- `fnb` (optional): the `filename` attribute of the error object is this BYTE string; the model
+decodes it (`getFilenameB` = `PybtexError.get_filename` with `pybtex.io._decode_filename`). -/
 def errrender (j : Json) : Except String Json := do
   let pre ← getStr j "prefix"
   match ← parseErr (← j.getObjVal? "e") with
   | none => pure (obj [("out", obj [("unmodelled", ← j.getObjVal? "e" >>= (·.getObjVal? "cls"))]), ("spec", Json.null)])
-  | some e => pure (obj [("out", renderJ e pre), ("spec", shapeJ e pre)])
+  | some e0 =>
+    let e ← match optField j "fnb" with
+      | some _ => do pure (e0.withFilename (getFilenameB (.bytes (← getBytes j "fnb"))))
+      | none => pure e0
+    pure (obj [("out", renderJ e pre), ("spec", shapeJ e pre)])
+
+/-! ### function level: byte file names, string primitives, the two `get_error_context` -/
+
+/-- `PybtexError(msg, filename=…).get_filename()` / `format_error`, `_decode_filename(b, 'replace')`,
+`str.encode('utf-8')`.  `fn`: `null` | `{"s": str}` | `{"b": [bytes]}`. -/
+def errfilename (j : Json) : Except String Json := do
+  let pre ← getStr j "prefix"
+  let msg ← getStr j "msg"
+  let fj := optField j "fn"
+  let fn ← match fj with
+    | none => pure FileName.none
+    | some v =>
+      match optField v "s" with
+      | some _ => do pure (FileName.str (← getStr v "s"))
+      | none => do pure (FileName.bytes (← getBytes v "b"))
+  let e := Err.plain .pybtexError msg none
+  let dec : Json := match fn with
+    | .bytes b => strToJson (decodeFilename b)
+    | _ => Json.null
+  let enc : Json := match fn with
+    | .str s => arr ((utf8Encode s).map nat)
+    | _ => Json.null
+  let fmt : Json := match formatErrorB e fn pre with
+    | .ok t => strToJson t
+    | .error f => failJ f
+  -- reference: re-encoding what was decoded gives the bytes back iff the byte string is well-formed UTF-8
+  let wellFormed : Json := match fn with
+    | .bytes b => Json.bool (utf8Encode (decodeFilename b) == b)
+    | _ => Json.null
+  pure (obj [("out", obj [("filename", optJ strToJson (getFilenameB fn)), ("format", fmt),
+                          ("decode", dec), ("encode", enc)]),
+             ("spec", obj [("well_formed", wellFormed),
+                           ("nonempty", Json.bool (match getFilenameB fn with
+                              | some f => !f.isEmpty
+                              | none => false))])])
+
+/-- `PybtexError.__eq__` / `__hash__`: `a == b` (another error object) or `a == text`. -/
+def erreq (j : Json) : Except String Json := do
+  match ← parseErr (← j.getObjVal? "a") with
+  | none => pure (obj [("out", obj [("unmodelled", Json.str "a")]), ("spec", Json.null)])
+  | some a =>
+    let eq ← match optField j "b" with
+      | some bj => do
+        match ← parseErr bj with
+        | none => throw "unmodelled class in b"
+        | some b => pure (a.pyEq b)
+      | none => do pure (a.pyEqText (← getStr j "text"))
+    pure (obj [("out", obj [("eq", Json.bool eq), ("ne", Json.bool (!eq)),
+                            ("hash_is_str_hash", Json.bool (a.hashKey == a.str))]),
+               ("spec", Json.null)])
+
+def ctxJ : Except RenderFail (Option (Str × Int)) → Json
+  | .ok none => Json.null
+  | .ok (some (c, n)) => arr [strToJson c, int n]
+  | .error f => failJ f
+
+def errprim (j : Json) : Except String Json := do
+  let f ← (← j.getObjVal? "f").getStr?
+  let s ← getStr j "s"
+  let out ← match f with
+    | "splitlines" => do pure (strs (Errors.splitLines (← getBool j "keep") s))
+    | "repr" => pure (strToJson (pyRepr s))
+    | "rstrip" => pure (strToJson (rstripCRLF s))
+    | "endswith_nl" => pure (Json.bool (endsWithNL s))
+    | "newline" => do
+      let pos ← getNat j "pos"
+      pure (optJ nat (findNewlineEnd (s.drop pos) pos))
+    | "scanner_ctx" => do
+      pure (ctxJ (scannerErrorContext s (← getOptNat j "lineno") (← getNat j "pos")))
+    | "lowlevel_ctx" => do
+      pure (ctxJ ((lowLevelErrorContext s (← getOptNat j "start") (← getNat j "pos")).map some))
+    | _ => throw s!"unknown primitive {f}"
+  pure (obj [("out", out), ("spec", Json.null)])
 
 def errclasses (_ : Json) : Except String Json :=
   pure (obj [("out", arr (classNames.map Json.str)), ("spec", arr (classNames.map Json.str))])
@@ -402,6 +488,7 @@ def fmtchars (j : Json) : Except String Json := do
 
 def handlers : List (String × (Json → Except String Json)) :=
   [("errhist", errhist), ("errrender", errrender), ("errclasses", errclasses),
-   ("errmodes", errmodes), ("errcli", errcli), ("errfree", errfree), ("fmtchars", fmtchars)]
+   ("errmodes", errmodes), ("errcli", errcli), ("errfree", errfree), ("fmtchars", fmtchars),
+   ("errfilename", errfilename), ("errprim", errprim), ("erreq", erreq)]
 
 end Pybtex.Drv.C16
